@@ -100,6 +100,17 @@ Definition dec_uint (w : N) (j : item) : option value :=
 Definition dec_bytes (j : item) : option bytes :=
   match j with BStr _ bs => Some bs | BStrI cs => Some (flat_map snd cs) | _ => None end.
 
+(* a []byte destination also takes a CBOR array, element by element, as a
+   slice of uint8 (with the coercions of an unsigned destination) *)
+Definition dec_u8 (x : item) : option N :=
+  let j := strip x in
+  if is_nil j then Some 0 else match dec_uint 8 j with Some (VUInt n) => Some n | _ => None end.
+Fixpoint dec_u8s (xs : list item) : option bytes :=
+  match xs with
+  | [] => Some []
+  | x :: r => match dec_u8 x, dec_u8s r with Some n, Some ns => Some (n :: ns) | _, _ => None end
+  end.
+
 (* pcommon.Point.UnmarshalCBOR after the fix: decode into []any; length 0 is
    the origin, length 2 must be (uint64, []byte), every other length is an
    error.  Elements decoded into `any`: only a plain unsigned integer gives
@@ -131,7 +142,11 @@ Section Dec.
     | SUInt w => if is_nil j then Some (zero s) else dec_uint w j
     | SBool => if is_nil j then Some (zero s) else
                match j with Simple Fimm v => if v =? 20 then Some (VBool false) else if v =? 21 then Some (VBool true) else None | _ => None end
-    | SBytes => if is_nil j then Some (zero s) else option_map VBytes (dec_bytes j)
+    | SBytes => if is_nil j then Some (zero s) else
+               match j with
+               | Arr _ xs => option_map VBytes (dec_u8s xs)   (* []byte is also a slice of uint8 *)
+               | _ => option_map VBytes (dec_bytes j)
+               end
     | SText => if is_nil j then Some (zero s) else
                match j with TStr _ bs => Some (VText bs) | TStrI cs => Some (VText (flat_map snd cs)) | _ => None end
     | SPoint => if is_nil j then Some (zero s) else point j
